@@ -214,8 +214,20 @@ def char_samples(rng, n):
     return ["%x" % c for c in s]
 
 
+PARSEABLE_STRINGS = ["936da01f-9abd-4d9d-80c7-02af85c822a8", "936da01f9abd4d9d80c702af85c822a8",
+                      "{936da01f-9abd-4d9d-80c7-02af85c822a8}", "urn:uuid:936da01f-9abd-4d9d-80c7-02af85c822a8",
+                      "1", "-1", "1.5", "true", "2020-01-01", "12:34:56", "2020-01-01 12:34:56", "2020-01-01T12:34:56Z",
+                      "2020-01-01 12:34:56 +00:00", "10.0.0.1/8", "::1/128", "00:11:22:33:44:55", "{}", "[1]", "a",
+                      "[1.0,2.0]"]
+
+
 def string_samples(rng, n):
-    s = ["", "a", "null", "NULL", "'", "\0", "é", "\U0001F600", "a\0b", " " * 3, "x" * 300]
+    s = ["", "a", "null", "NULL", "'", "\0", "é", "\U0001F600", "a\0b", " " * 3, "x" * 300,
+         # texts that PARSE as a value of another type: extracting a String as that type must still fail
+         "936da01f-9abd-4d9d-80c7-02af85c822a8", "936da01f9abd4d9d80c702af85c822a8",
+         "{936da01f-9abd-4d9d-80c7-02af85c822a8}", "urn:uuid:936da01f-9abd-4d9d-80c7-02af85c822a8",
+         "1", "-1", "1.5", "true", "2020-01-01", "12:34:56", "2020-01-01 12:34:56", "2020-01-01T12:34:56Z",
+         "2020-01-01 12:34:56 +00:00", "10.0.0.1/8", "::1/128", "00:11:22:33:44:55", "{}", "[1]", "\"a\"", "[1.0,2.0]"]
     s += [gens.rand_string(rng, 24) for _ in range(n)]
     return [hexs(x) for x in s]
 
@@ -370,6 +382,9 @@ def gen_cases(ctx):
         sources.append("%s:N" % tag_name(tag))
         for tok in few(tag, ctx, rng, 2):
             sources.append("%s:%s" % (tag_name(tag), tok))
+    # strings whose text parses as a value of another type: still a String, extraction as anything else must fail
+    for txt in PARSEABLE_STRINGS:
+        sources.append("String:%s" % hexs(txt))
     arr_tags = [t for t in tags if t != "TVector"]
     for tag in arr_tags:
         e = tag_name(tag)
